@@ -62,8 +62,8 @@ impl GenCfg {
     }
 }
 
-pub const FAMILIES: [&str; 14] = [
-    "munch", "lang", "rulesets", "rctx", "eoi", "loc", "actions", "recover", "progress", "realistic",
+pub const FAMILIES: [&str; 15] = [
+    "accum", "munch", "lang", "rulesets", "rctx", "eoi", "loc", "actions", "recover", "progress", "realistic",
     "class", "prec", "bigclass", "mixed",
 ];
 
@@ -141,6 +141,21 @@ pub fn family_cfg(family: &str, rng: &mut Rng) -> GenCfg {
             c.p_err = 25;
             c.p_guarded = 50;
             c.p_unnamed = 20;
+        }
+        "accum" => {
+            // many accumulating actions (continue_ without reset) next to returning ones, in
+            // automata with rewinds: stale saved matches become visible
+            c.letters = if rng.chance(1, 2) { vec!['a', 'b'] } else { vec!['a', 'b', 'c'] };
+            c.rules = (4, 7);
+            c.depth = rng.range(1, 2);
+            c.w_atom = [10, 8, 3, 1, 0, 0];
+            c.w_node = [4, 8, 2, 1, 1, 4];
+            c.w_act = [1, 1, 8, 2];
+            c.p_continue = 50;
+            c.p_reset = 15;
+            c.p_err = 10;
+            c.p_guarded = 30;
+            c.p_ctx = 10;
         }
         "recover" => {
             c.letters = vec!['a', 'b'];
@@ -542,13 +557,16 @@ pub fn precx_exhaustive_len() -> usize {
 /// the way to a further state), shape 2 `'?' > E = t` (right-context function).
 fn gen_class_spec(g: &mut Gen, shape: usize) -> Spec {
     let env = Env::new();
+    // only built-ins whose tables are exact today (the content of the Unicode-dependent ones is
+    // C13's business; `whitespace` has 10 ranges and forces the search-table path)
     g.cfg.builtins = vec![
         "ascii_lowercase",
         "ascii_digit",
         "ascii_alphabetic",
         "ascii_hexdigit",
-        "alphabetic",
-        "lowercase",
+        "ascii_punctuation",
+        "control",
+        "whitespace",
         "whitespace",
     ];
     // hostile letters
